@@ -14,6 +14,9 @@
 #include <thread>
 #include <atomic>
 #include <unistd.h>
+#include <filesystem>
+#include "bitserializer/types/std/ctime.h"
+#include "bitserializer/types/std/filesystem.h"
 
 using namespace arch;
 
@@ -40,6 +43,7 @@ struct Cls {
 	int64_t a = 1; std::string s; std::vector<int> v; In in; std::vector<In> arr; std::map<std::string, int> m; std::optional<std::string> o; std::u16string w; Color col = Color::Red; std::pair<std::string, int> pr; TimePoint tp{}; double d = 0.5;
 	template <class A> void Serialize(A& ar) { ar << KeyValue("a", a) << KeyValue("s", s) << KeyValue("v", v) << KeyValue("in", in) << KeyValue("arr", arr) << KeyValue("m", m) << KeyValue("o", o) << KeyValue("w", w) << KeyValue("col", col) << KeyValue("pr", pr) << KeyValue("tp", tp) << KeyValue("d", d); }
 };
+struct TimeHolder { time_t t = 0; template <class A> void Serialize(A& ar) { ar << KeyValue("t", CTimeRef(t)); } };
 struct Row { std::string a; int n = 0; Color col = Color::Green; double d = 0; template <class A> void Serialize(A& ar) { ar << KeyValue("a", a) << KeyValue("n", n, Required()) << KeyValue("col", col) << KeyValue("d", d); } };
 
 // first-use races: function-local statics (std::pair key names, ...) are initialised by the first serialization of a type.  Every case takes
@@ -67,7 +71,7 @@ std::vector<Row> gen_rows(vf::Src& s) { std::vector<Row> r; for (size_t n = 1 + 
 struct Shared { Cls cls[2]; std::vector<Row> rows; std::string mp[2], js[2], xm[2], cs; std::string jsInvalid; std::string isoDates[4]; std::string numbers[4]; };
 
 struct Op { int kind = 0; int which = 0; int enc = 0; bool bom = false; uint64_t arg = 0; };
-enum { OpSaveMp, OpSaveJs, OpSaveXm, OpSaveCs, OpSaveMpStream, OpSaveJsStream, OpSaveXmStream, OpSaveCsStream, OpLoadMp, OpLoadJs, OpLoadXm, OpLoadCs, OpLoadMpStream, OpLoadJsStream, OpLoadXmStream, OpLoadCsStream, OpLoadInvalid, OpEnum, OpNumber, OpChrono, OpUtf, OpPair, OpSkipPolicy, OpFreshPair, OpCount };
+enum { OpSaveMp, OpSaveJs, OpSaveXm, OpSaveCs, OpSaveMpStream, OpSaveJsStream, OpSaveXmStream, OpSaveCsStream, OpLoadMp, OpLoadJs, OpLoadXm, OpLoadCs, OpLoadMpStream, OpLoadJsStream, OpLoadXmStream, OpLoadCsStream, OpLoadInvalid, OpEnum, OpNumber, OpChrono, OpUtf, OpPair, OpSkipPolicy, OpFreshPair, OpFile, OpRawTime, OpCount };
 
 template <class T> std::string resave(T& v) { std::string out; SaveObject<JsonArchive>(v, out); return out; }
 std::string run_op(const Op& op, const Shared& sh) {
@@ -98,17 +102,23 @@ std::string run_op(const Op& op, const Shared& sh) {
 		case OpUtf: { const std::string& t = sh.cls[op.which].s; auto u16 = Convert::To<std::u16string>(t); auto u32 = Convert::To<std::u32string>(u16); return Convert::To<std::string>(u32) + "/" + std::to_string(u16.size()); }
 		case OpPair: { std::pair<std::string, int> p = sh.cls[op.which].pr; std::string out; SaveObject<JsonArchive>(p, out); std::pair<std::string, int> q; LoadObject<JsonArchive>(q, out); return out + "/" + q.first + "/" + std::to_string(q.second); }
 		case OpSkipPolicy: { SerializationOptions o2; o2.mismatchedTypesPolicy = MismatchedTypesPolicy::Skip; o2.overflowNumberPolicy = OverflowNumberPolicy::Skip; o2.maxValidationErrors = 1 + static_cast<uint32_t>(op.arg % 3); Cls c; try { LoadObject<JsonArchive>(c, sh.jsInvalid, o2); return "loaded"; } catch (const ValidationException& e) { return vf::cat("validation:", e.GetValidationErrors().size(), ":", e.GetValidationErrors().begin()->first); } }
+		case OpFile: {   // the file entry points, every thread on a file of its own
+			const std::string path = (std::filesystem::temp_directory_path() / vf::cat("vf_c19_", getpid(), "_", std::hash<std::thread::id>()(std::this_thread::get_id()), "_", op.arg % 7, ".json")).string();
+			Cls c = sh.cls[op.which]; std::string r;
+			try { SaveObjectToFile<JsonArchive>(c, path, opt, true); Cls l; LoadObjectFromFile<JsonArchive>(l, path); r = resave(l); } catch (const std::exception& e) { r = std::string("exception: ") + e.what(); }
+			std::error_code ec; std::filesystem::remove(path, ec); return r; }
+		case OpRawTime: { const time_t tt = static_cast<time_t>(static_cast<int64_t>(op.arg) * 86399 - 40000000000LL); std::string r = Convert::ToString(CRawTime(tt)); try { r += "/" + std::to_string(static_cast<long long>(Convert::To<CRawTime>(r).Time)); } catch (const std::exception& e) { r += std::string("/") + e.what(); } time_t t2 = tt + 1; std::string js; { TimeHolder h{ t2 }; SaveObject<JsonArchive>(h, js); } return r + "/" + js; }
 		case OpFreshPair: return fresh_dispatch(static_cast<int>(op.arg), op.which, std::make_integer_sequence<int, kFreshTypes>());
 		default: return "?";
 		}
 	}
 	catch (const std::exception& e) { return std::string("exception: ") + e.what(); }
 }
-const char* kOpNames[] = { "save-msgpack", "save-json", "save-xml", "save-csv", "save-msgpack-stream", "save-json-stream", "save-xml-stream", "save-csv-stream", "load-msgpack", "load-json", "load-xml", "load-csv", "load-msgpack-stream", "load-json-stream", "load-xml-stream", "load-csv-stream", "load-validation-failing", "enum", "number", "chrono", "utf", "pair", "skip-policy", "fresh-pair-type" };
+const char* kOpNames[] = { "save-msgpack", "save-json", "save-xml", "save-csv", "save-msgpack-stream", "save-json-stream", "save-xml-stream", "save-csv-stream", "load-msgpack", "load-json", "load-xml", "load-csv", "load-msgpack-stream", "load-json-stream", "load-xml-stream", "load-csv-stream", "load-validation-failing", "enum", "number", "chrono", "utf", "pair", "skip-policy", "fresh-pair-type", "file-round-trip", "time_t-text" };
 
 } // namespace
 
-VF_PROPERTY(concurrent_schedule, 1, "schedule of 2..4 threads x 2..10 operations each out of 24 kinds (SaveObject / LoadObject through MessagePack, JSON, XML, CSV from memory and through string streams in 5 encodings, validation-failing and policy-skipping loads, std::pair, Convert::To of enums, numbers, ISO dates, UTF) on thread-local targets plus shared read-only source objects, input buffers, default options and enum tables; released together by a spin barrier; oracles: ThreadSanitizer (happens-before) reports no race, and every operation returns what it returned in a sequential run of the same schedule; non-trivial = at least two threads run an operation of the same kind or on the same shared input") {
+VF_PROPERTY(concurrent_schedule, 1, "schedule of 2..4 threads x 2..10 operations each out of 26 kinds (SaveObject / LoadObject through MessagePack, JSON, XML, CSV from memory and through string streams in 5 encodings, validation-failing and policy-skipping loads, std::pair, Convert::To of enums, numbers, ISO dates, UTF) on thread-local targets plus shared read-only source objects, input buffers, default options and enum tables; released together by a spin barrier; oracles: ThreadSanitizer (happens-before) reports no race, and every operation returns what it returned in a sequential run of the same schedule; non-trivial = at least two threads run an operation of the same kind or on the same shared input") {
 	Shared sh; sh.cls[0] = gen_cls(c.src); sh.cls[1] = gen_cls(c.src); sh.rows = gen_rows(c.src);
 	for (int k = 0; k < 2; k++) { Cls x = sh.cls[k]; SaveObject<MsgPackArchive>(x, sh.mp[k]); SaveObject<JsonArchive>(x, sh.js[k]); SaveObject<XmlArchive>(x, sh.xm[k]); } { auto r = sh.rows; SaveObject<CsvArchive>(r, sh.cs); }
 	sh.jsInvalid = R"({"a":"not-a-number","s":"x","in":{"t":")" + std::string(80, 't') + R"("},"arr":[{"q":200000,"t":"y"},{"t":"z"}],"col":"NoSuchColor","d":1e999})";
